@@ -77,6 +77,8 @@ def oracle_fit(ctx, forced=None):
     if forced is not None:
         nx, nu, g = 2, 1, forced[0]
         X, kw = active_data(rng, forced[1])
+    X, data_form = lc.maybe_int_data(rng, X, kw, p=(1.0 if forced is not None and len(forced) > 3 else 0.3),
+                                     scale=(6 if forced is not None else 3))
     Xi = gain_supply(nx, nu, g)
     mixed = rng.random() < 0.5 and forced is None
     if mixed:       # a mixed (conic-sector like) supply rate: non-zero off-diagonal block
@@ -85,8 +87,8 @@ def oracle_fit(ctx, forced=None):
         Xi[nx:, :nx] = S.T
     reg = lmi.LmiEdmdDissipativityConstr(alpha=rng.choice([0, 0.1]), supply_rate=Xi, max_iter=rng.choice([1, 2, 4]),
                                          solver_params=dict(lc.SOLVER))
-    refit = rng.random() < 0.35 or forced is not None
-    case = {'nx': nx, 'nu': nu, 'gain': g, 'mixed': mixed, 'Xi': Xi.tolist(), 'X': X.tolist(), 'refit': refit,
+    refit = rng.random() < 0.35 or (forced is not None and forced[2] is not None)
+    case = {'nx': nx, 'nu': nu, 'gain': g, 'mixed': mixed, 'Xi': Xi.tolist(), 'X': X.tolist(), 'refit': refit, 'data_form': data_form,
             'replay': {'rng': snap, 'forced': forced}}
     try:
         if refit:
@@ -159,40 +161,45 @@ def run(ctx):
     ctx.assumptions = ["an 'optimal' solver answer satisfies its constraints up to tolerance (measured)"]
     ctx.proof_obligations('Properties.C11', THEOREMS)
     drv = ctx.get_driver()
-    la_lines, la_meta = [], []
-    for i in range(ctx.n(25, 300)):
-        items, tag = structure_case(ctx)
-        for line, lhs, what in items:
-            la_lines.append(line)
-            la_meta.append((lhs, what, tag))
-    for (lhs, what, tag), rep in zip(la_meta, lc.la_ask(la_lines)):
-        ctx.count('structure:' + what + ('/default' if tag['default_supply'] else '/custom'))
-        ctx.record_case(dict(tag, part=what), True)
-        M = lc.parse_mat(rep)
-        if M is None or M.shape != lhs.shape or not np.allclose(M, lhs, rtol=1e-12, atol=1e-12):
-            ctx.mismatch(f'dissipativity LMI block of {what}', tag, lhs.tolist(), None if M is None else M.tolist())
-    lines, meta = [], []
-    for i in range(ctx.n(30, 400)):
-        nx, nu = ctx.rng.randint(1, 2), 1
-        X, kw, _, _ = lc.lin_data(ctx.rng, nx, nu)
-        mk = lambda **k: lmi.LmiEdmdDissipativityConstr(solver_params=dict(lc.SOLVER), **k)
-        reg, script, rows, line = lc.check_loop(ctx, mk, X, kw, (nx, nx + nu), (nx, nx), None, None)
-        lines.append(line)
-        meta.append((reg, script, rows))
-    for (reg, script, rows), rep in zip(meta, drv.ask(lines)):
-        t = rep.split()
-        case = {'rows': [[a, str(o), b] for a, o, b in rows], 'stop_at': script.stop_at, 'max_iter': reg.max_iter}
-        ctx.record_case(case, True)
-        ctx.count('loop')
-        ui, pi, stop, n_iter, nlog = int(t[1]), int(t[2]), t[3], int(t[4]), int(t[5])
-        log = [float(Fraction(x)) for x in t[6:6 + nlog]]
-        obs = {'stop': lc.stop_category(reg.stop_reason_), 'n_iter': int(reg.n_iter_), 'log': [float(x) for x in reg.objective_log_]}
-        if obs != {'stop': stop, 'n_iter': n_iter, 'log': log}:
-            ctx.mismatch('loop outcome', case, obs, rep)
-        wantU = np.zeros_like(script.a[0][1]) if ui < 0 else script.a[ui][1]
-        if not np.array_equal(reg.coef_.T, wantU):
-            ctx.mismatch('returned U', case, reg.coef_.T.tolist(), [ui])
-    sweeps = [(1.1, 5.0, 8.0), (1.5, 4.0, 6.0)]       # (requested gain bound, plant gain, bound of the earlier fit)
+    def _sec_problem_structure():
+        la_lines, la_meta = [], []
+        for i in range(ctx.n(25, 300)):
+            items, tag = structure_case(ctx)
+            for line, lhs, what in items:
+                la_lines.append(line)
+                la_meta.append((lhs, what, tag))
+        for (lhs, what, tag), rep in zip(la_meta, lc.la_ask(la_lines)):
+            ctx.count('structure:' + what + ('/default' if tag['default_supply'] else '/custom'))
+            ctx.record_case(dict(tag, part=what), True)
+            M = lc.parse_mat(rep)
+            if M is None or M.shape != lhs.shape or not np.allclose(M, lhs, rtol=1e-12, atol=1e-12):
+                ctx.mismatch(f'dissipativity LMI block of {what}', tag, lhs.tolist(), None if M is None else M.tolist())
+    ctx.attempt('problem structure', _sec_problem_structure)
+    def _sec_scripted_loop():
+        lines, meta = [], []
+        for i in range(ctx.n(30, 400)):
+            nx, nu = ctx.rng.randint(1, 2), 1
+            X, kw, _, _ = lc.lin_data(ctx.rng, nx, nu)
+            mk = lambda **k: lmi.LmiEdmdDissipativityConstr(solver_params=dict(lc.SOLVER), **k)
+            reg, script, rows, line = lc.check_loop(ctx, mk, X, kw, (nx, nx + nu), (nx, nx), None, None)
+            lines.append(line)
+            meta.append((reg, script, rows))
+        for (reg, script, rows), rep in zip(meta, drv.ask(lines)):
+            t = rep.split()
+            case = {'rows': [[a, str(o), b] for a, o, b in rows], 'stop_at': script.stop_at, 'max_iter': reg.max_iter}
+            ctx.record_case(case, True)
+            ctx.count('loop')
+            ui, pi, stop, n_iter, nlog = int(t[1]), int(t[2]), t[3], int(t[4]), int(t[5])
+            log = [float(Fraction(x)) for x in t[6:6 + nlog]]
+            obs = {'stop': lc.stop_category(reg.stop_reason_), 'n_iter': int(reg.n_iter_), 'log': [float(x) for x in reg.objective_log_]}
+            if obs != {'stop': stop, 'n_iter': n_iter, 'log': log}:
+                ctx.mismatch('loop outcome', case, obs, rep)
+            wantU = np.zeros_like(script.a[0][1]) if ui < 0 else script.a[ui][1]
+            if not np.array_equal(reg.coef_.T, wantU):
+                ctx.mismatch('returned U', case, reg.coef_.T.tolist(), [ui])
+    ctx.attempt('scripted loop', _sec_scripted_loop)
+    # (requested gain bound, plant gain, bound of an earlier fit of the same instance or None, data as integer counts)
+    sweeps = [(1.1, 5.0, 8.0), (1.5, 4.0, 6.0), (1.5, 4.0, None, 'int'), (2.5, 6.0, None, 'int')]
 
     def fits(n, stop_at_first=False):
         for i in range(n + len(sweeps)):
